@@ -494,14 +494,47 @@ inline void mergeCase(Ctx& c, long j)
     }
 }
 
+// deterministic: endpoint X has a message open while 70 000 / 140 000 / 270 000 frames of other endpoints pass (more than one
+// and more than two full turns of a 16-bit counter of frames), then X continues
+inline void longGapCase(Ctx& c, long j)
+{
+    static const size_t gaps[] = {70000, 140000, 270000};
+    size_t gap = gaps[j % 3];
+    Rng r = c.fixedRng(j, 35);
+    c17::Ep x{0x0102, 3, 500};
+    std::vector<Bytes> H;
+    H.push_back(c17::letterFrame(c17::L_F, x, r));
+    H.push_back(c17::letterFrame(c17::L_M, x, r));
+    c17::Ep others[3] = {{0x0102, 4, 0}, {0x0103, 3, 65000}, {7, 0, 1}};
+    for (size_t i = 0; i < gap; ++i)
+    {
+        c17::Ep& o = others[i % 3];
+        int letter = (i % 11 == 0) ? c17::L_F : ((i % 11 == 1) ? c17::L_L : c17::L_U);
+        if (i % 11 == 1)
+            letter = c17::L_L;
+        H.push_back(c17::letterFrame(letter, o, r));
+        if (i == gap / 2)
+            H.push_back(c17::letterFrame(c17::L_M, x, r));  // (in one variant X also continues in the middle)
+    }
+    if (j >= 3)
+        H.erase(H.begin() + static_cast<long>(2 + gap / 2 + 1));  // variant without the middle continuation
+    H.push_back(c17::letterFrame(c17::L_L, x, r));
+    H.push_back(c17::letterFrame(c17::L_U, x, r));
+    // checkHistory notes the whole history on every call; keep that cheap for the long ones
+    checkHistory(c, H, mix64(0x10a69a9, static_cast<uint64_t>(j)));
+    c.count("histories_with_a_gap_of_more_than_65536_foreign_frames");
+}
+
 inline long count(Ctx& c)
 {
-    return 400 + (c.thorough() ? 3000000 : 10000);
+    return 400 + 6 + (c.thorough() ? 3000000 : 10000);
 }
 inline void run(Ctx& c, long idx)
 {
     if (idx < 400)
         return mergeCase(c, idx);
+    if (idx < 406)
+        return longGapCase(c, idx - 400);
     randomCase(c, idx);
 }
 
